@@ -813,4 +813,132 @@ theorem trace_t (cfg : Cfg) (d : DST) (clk : Clock) (hclk : d.clock = some clk) 
     obtain ⟨c1, _, _⟩ := traceClock_t d clk hclk s hb hi.1
     exact traceBody_t cfg d e args _ hwf hw hu c1
 
+
+/-! ### top level -/
+
+theorem traceAfterReserve_u (cfg : Cfg) (d : DST) (e : ERT) (args : Args) (erAt erSize : Nat) (r : Bool × St)
+    (hu : r.2.c.useCurLastEventTs = false) :
+    (traceAfterReserve cfg d e args erAt erSize r).c.useCurLastEventTs = false := by
+  unfold traceAfterReserve
+  split
+  · exact hu
+  · split
+    · exact hu
+    · split
+      · exact hu
+      · exact (traceWrite_tf cfg d e args r.2).useCur.trans hu
+
+theorem traceEnabled_u (cfg : Cfg) (d : DST) (e : ERT) (args : Args) (s0 : St) (hu0 : s0.c.useCurLastEventTs = false) :
+    (traceEnabled cfg d e args s0).c.useCurLastEventTs = false := by
+  unfold traceEnabled
+  exact traceAfterReserve_u cfg d e args s0.c.at_ (erSizeAt d e args s0.c.at_) _
+    (reserve_tf0 cfg d (erSizeAt d e args s0.c.at_) (erSizeAt d e args s0.c.offContent) s0 hu0).useCur
+
+theorem traceBody_u (cfg : Cfg) (d : DST) (e : ERT) (args : Args) (s : St) (hu : s.c.useCurLastEventTs = false) :
+    (traceBody cfg d e args s).c.useCurLastEventTs = false := by
+  unfold traceBody
+  simp only
+  split
+  · exact hu
+  · exact traceEnabled_u cfg d e args _ hu
+
+theorem trace_u (cfg : Cfg) (d : DST) (e : ERT) (args : Args) (s : St) (hu : s.c.useCurLastEventTs = false) :
+    (trace cfg d e args s).c.useCurLastEventTs = false := by
+  unfold trace
+  split
+  · exact hu
+  · exact traceBody_u cfg d e args _ ((traceClock_fr d s).2.trans hu)
+
+/-- clock never goes back and `use_cur_last_event_ts` is 0 between public API calls -/
+theorem stepOp_fr (cfg : Cfg) (d : DST) (op : Op) (s : St) (hu : s.c.useCurLastEventTs = false) :
+    s.p.clock ≤ (stepOp cfg d op s).p.clock ∧ (stepOp cfg d op s).c.useCurLastEventTs = false := by
+  unfold stepOp
+  split
+  · exact ⟨Nat.le_refl _, hu⟩
+  · have key : ∀ (name : String) (s' : St), s.p.clock ≤ s'.p.clock → s'.c.useCurLastEventTs = false →
+        s.p.clock ≤ (if s'.halted = true then s' else s'.ev (.ret name s'.c s'.buf.length)).p.clock ∧
+        (if s'.halted = true then s' else s'.ev (.ret name s'.c s'.buf.length)).c.useCurLastEventTs = false := by
+      intro name s' h1 h2
+      split <;> exact ⟨h1, h2⟩
+    cases op with
+    | open_ => exact key "open" _ (cbOpen_tf cfg d s).clock ((cbOpen_tf cfg d s).useCur.trans hu)
+    | close => exact key "close" _ (cbClose_tf cfg d s).clock ((cbClose_tf cfg d s).useCur.trans hu)
+    | trace en args =>
+      simp only
+      split
+      · exact key "trace" _ (trace_mono cfg d _ args s hu) (trace_u cfg d _ args s hu)
+      · exact key "trace" _ (Nat.le_refl _) hu
+    | enable b => exact key "enable" _ (Nat.le_refl _) hu
+    | query => exact key "query" _ (Nat.le_refl _) hu
+    | fin =>
+      have hfin : s.p.clock ≤ (if (s.c.packetIsOpen && !s.c.isEmpty) = true then cbClose cfg d s else s).p.clock ∧
+          (if (s.c.packetIsOpen && !s.c.isEmpty) = true then cbClose cfg d s else s).c.useCurLastEventTs = false := by
+        split
+        · exact ⟨(cbClose_tf cfg d s).clock, (cbClose_tf cfg d s).useCur.trans hu⟩
+        · exact ⟨Nat.le_refl _, hu⟩
+      exact key "fin" _ hfin.1 hfin.2
+
+theorem runOps_fr (cfg : Cfg) (d : DST) (ops : List Op) (s : St) (hu : s.c.useCurLastEventTs = false) :
+    s.p.clock ≤ (runOps cfg d ops s).p.clock := by
+  unfold runOps
+  induction ops generalizing s with
+  | nil => exact Nat.le_refl _
+  | cons op ops ih =>
+    simp only [List.foldl_cons]
+    obtain ⟨h1, h2⟩ := stepOp_fr cfg d op s hu
+    exact Nat.le_trans h1 (ih _ h2)
+
+theorem stepOp_t (cfg : Cfg) (d : DST) (clk : Clock) (hclk : d.clock = some clk) (hwf : ClockWF d) (op : Op) (s : St)
+    (hw : (stepOp cfg d op s).p.clock < clkW d) (hi : TTop s) : TTop (stepOp cfg d op s) := by
+  unfold stepOp at hw ⊢
+  cases hh : s.halted
+  · simp only [hh, Bool.false_eq_true, if_false] at hw ⊢
+    have key : ∀ (name : String) (s' : St), TTop s' →
+        TTop (if s'.halted = true then s' else s'.ev (.ret name s'.c s'.buf.length)) := by
+      intro name s' h
+      split
+      · exact h
+      · exact ⟨h.1.evq _ (fun _ _ h => by cases h), h.2⟩
+    have pclk : ∀ (name : String) (s' : St),
+        (if s'.halted = true then s' else s'.ev (.ret name s'.c s'.buf.length)).p.clock = s'.p.clock := by
+      intro name s'; split <;> rfl
+    cases op with
+    | open_ =>
+      simp only [pclk] at hw
+      exact key "open" _ ⟨(cbOpen_t cfg d s hwf hw).1 hi.2 hi.1, (cbOpen_tf cfg d s).useCur.trans hi.2⟩
+    | close =>
+      simp only [pclk] at hw
+      exact key "close" _ ⟨(cbClose_t cfg d s hwf hw).1 hi.2 hi.1, (cbClose_tf cfg d s).useCur.trans hi.2⟩
+    | trace en args =>
+      simp only at hw ⊢
+      cases he : List.find? (fun (e : ERT) => e.name == en) d.erts with
+      | none => simp only [he] at hw ⊢; exact key "trace" _ hi
+      | some e =>
+        simp only [he, pclk] at hw ⊢
+        exact key "trace" _ (trace_t cfg d clk hclk e args s hwf hw hi)
+    | enable b => exact key "enable" _ ⟨hi.1.upd rfl rfl rfl, hi.2⟩
+    | query => exact key "query" _ hi
+    | fin =>
+      simp only [pclk] at hw
+      have hfin : TTop (if (s.c.packetIsOpen && !s.c.isEmpty) = true then cbClose cfg d s else s) := by
+        split
+        · rename_i hc
+          simp only [hc, if_true] at hw
+          exact ⟨(cbClose_t cfg d s hwf hw).1 hi.2 hi.1, (cbClose_tf cfg d s).useCur.trans hi.2⟩
+        · exact hi
+      exact key "fin" _ hfin
+  · simp only [hh, if_true]; exact hi
+
+theorem runOps_t (cfg : Cfg) (d : DST) (clk : Clock) (hclk : d.clock = some clk) (hwf : ClockWF d) (ops : List Op)
+    (s : St) (hw : (runOps cfg d ops s).p.clock < clkW d) (hi : TTop s) : TTop (runOps cfg d ops s) := by
+  unfold runOps at hw ⊢
+  induction ops generalizing s with
+  | nil => exact hi
+  | cons op ops ih =>
+    simp only [List.foldl_cons] at hw ⊢
+    have hu2 := (stepOp_fr cfg d op s hi.2).2
+    have hb : (stepOp cfg d op s).p.clock < clkW d :=
+      Nat.lt_of_le_of_lt (runOps_fr cfg d ops _ hu2) hw
+    exact ih _ hw (stepOp_t cfg d clk hclk hwf op s hb hi)
+
 end BVM
